@@ -53,6 +53,8 @@ def run(ctx):
     run.rule("C20.R6", "file handler classes register a weak reference, "
              "remove exactly it on close, define reopen; closeFiles / "
              "reopenFiles act on the registry", floor=5)
+    run.rule("C20.R9", "the sample record of the load-time format check "
+             "is representative of real records (kinds and magnitudes)")
     run.rule("C20.R8", "each format style class: placeholder spellings, "
              "usesTime and format == reference for that style (effective, "
              "i.e. inherited, methods)", floor=12)
@@ -209,6 +211,59 @@ def run(ctx):
 
     # ------------------------------------------------------------------ R8
     _style_classes(ctx)
+
+    # ------------------------------------------------------------------ R9
+    # Load-time validation formats a sample record; it vouches for real
+    # records only as far as each sample has the kind of value the logging
+    # package puts there: a float where LogRecord has a float (an integer
+    # sample lets %d-only / {:d} conversions through), and an integer outside
+    # the range of the 'c' conversion where real values are (thread idents,
+    # process ids).
+    fmod = m.modules[LG + ".formatter"]
+    vals = fmod.assigns.get("_log_format_variables")
+    if not vals or len(vals) != 1 or not isinstance(vals[0], ast.Dict):
+        raise AnalysisError("anchor vanished: %s.formatter."
+                            "_log_format_variables is not a dict display"
+                            % LG)
+    samples = {}
+    for k, v in zip(vals[0].keys, vals[0].values):
+        try:
+            kk = m.fold(fmod, k)
+        except Exception:
+            continue
+        if isinstance(v, ast.Name) and v.id in ("__name__", "__file__"):
+            samples[kk] = "<module name>"
+            continue
+        try:
+            samples[kk] = m.fold(fmod, v)
+        except Exception:
+            samples[kk] = None
+    want = {"name": str, "levelno": int, "levelname": str, "pathname": str,
+            "filename": str, "module": str, "lineno": int, "created": float,
+            "asctime": str, "msecs": float, "relativeCreated": float,
+            "thread": int, "message": str, "process": int, "funcName": str}
+    bad = {}
+    for k, t in want.items():
+        if k not in samples:
+            bad[k] = "missing"
+        elif type(samples[k]) is not t:
+            bad[k] = "%s sample, real records carry %s" % (
+                type(samples[k]).__name__, t.__name__)
+    for k in ("thread", "process"):
+        if k in samples and isinstance(samples[k], int) \
+                and samples[k] <= 0x10FFFF:
+            bad[k] = ("sample %r is inside the range of the 'c' conversion, "
+                      "real values are not" % samples[k])
+    extra = sorted(set(samples) - set(want))
+    run.check(not bad and not extra, "C20.R9",
+              LG + ".formatter._log_format_variables", "sample record",
+              "every documented record attribute has a sample of the kind "
+              "real records carry (%d attributes)" % len(want),
+              "the sample record used to validate formats at load time is "
+              "not representative: %s%s" % (bad, (" unknown attributes %s"
+                                                  % extra) if extra else ""),
+              loc=m.rel(m.modules[LG + ".formatter"].path),
+              witness={"attributes": bad})
 
     # ------------------------------------------------------------------ R7
     try:
